@@ -27,6 +27,7 @@ THEOREMS = [
  'C01.getChannel_touch', 'C01.checkCapability_congr', 'C01.checkCapability_touch', 'C01.gate_touch',
  'C01.converter_guard', 'C01.converter_guard_noowner', 'C01.converter_guard_chan', 'C01.chancap_first_channel',
  'C01.invoke_body_requires', 'C01.owner_plugin_body_needs_owner', 'C01.guarded_body_needs_capability',
+ 'C01.checkCapability_total', 'C01.checkName_no_crash', 'C01.gate_no_crash', 'C01.inventory_names_plain',
  'C01.site_msg_is_current', 'C01.site_msg_scheduled', 'C01.scheduled_owner_command_refused', 'C01.trigger_runs_with_speakers_authority',
  'C01.ignored_silent', 'C01.dispatch_requires_not_ignored', 'C01.ignore_flag_ignored', 'C01.ignores_db_ignored',
  'C01.channel_ignored_silent', 'C01.received_dispatch_requires', 'C01.channel_ban_ignored', 'C01.trusted_never_ignored',
